@@ -51,6 +51,11 @@ def snapshot(root):
             out[os.path.join(dirpath, d) + '/'] = 'dir'
         for f in files:
             p = os.path.join(dirpath, f)
+            if os.path.islink(p):
+                # a symbolic link is an entry of its own: what it points to is listed (and
+                # compared) where it really lives
+                out[p] = 'link:' + os.readlink(p)
+                continue
             with open(p, 'rb') as fh:
                 data = fh.read()
             out[p] = '%d:%s' % (len(data), hashlib.sha1(data).hexdigest()[:12])
@@ -65,7 +70,8 @@ def materialise(tree, parent, order_rng=None, top=None):
     top = top or parent
     os.makedirs(path, exist_ok=True)
     items = [('f', n) for n in tree['files']] + [('d', i) for i in range(len(tree['dirs']))] + \
-        [('l', n) for n in sorted(tree.get('links') or {})]
+        [('l', n) for n in sorted(tree.get('links') or {})] + \
+        [('fl', n) for n in sorted(tree.get('flinks') or {})]
     if order_rng is not None:
         order_rng.shuffle(items)
     for kind, x in items:
@@ -74,6 +80,9 @@ def materialise(tree, parent, order_rng=None, top=None):
                 fh.write(tree['files'][x])
         elif kind == 'l':
             os.symlink(os.path.join(top, tree['links'][x]), os.path.join(path, x))
+        elif kind == 'fl':
+            # a file entry that is a symbolic link (to a file that may not exist yet)
+            os.symlink(os.path.join(top, tree['flinks'][x]), os.path.join(path, x))
         else:
             materialise(tree['dirs'][x], path, order_rng, top)
     return path
